@@ -39,7 +39,7 @@ CHECKS["C24"] = {
 
 
 VM_FILES = ["vm/lib.go", "vm/corpus.go"]
-VM_GROUPS_Q = ["0[1-7]", "0[89]|1[0-4]", "1[5-9]|2[01]", "2[2-8]"]
+VM_GROUPS_Q = ["0[1-7]", "0[89]|1[0-4]", "1[5-9]|2[01]", "2[2-8]", "29|3[0-4]"]
 
 
 def vm_units(labels):
@@ -52,7 +52,7 @@ def vm_units(labels):
 CHECKS["C22"] = {
     "level": "other",
     "explanation": "The real compiler produces each program of a corpus of program shapes; the real Machine (ResolveResources/ResolveBalances/Execute, Funding.Take/TakeMax/Concat, Allotment.Allocate) is executed symbolically with symbolic amounts, caps, overdraft limits, rational portions and account balances of any sign. z3 decides for every value: posting amounts >= 0, statement asset, sum of postings == sent amount (for 'send [A *]': the reference definition of available funds), 'kept' yields no posting, tracked balances == initial + postings.",
-    "bounds": {"quick": "28 program shapes (in-order/allotment/max sources and destinations, overdraft clauses, send-all, kept, save, balance() variable, multi-send, repeated accounts); all numeric inputs unbounded", "thorough": "same corpus"},
+    "bounds": {"quick": "34 program shapes (in-order/allotment/max sources and destinations, overdraft clauses, send-all, kept, save, balance() variable, multi-send, repeated accounts); all numeric inputs unbounded", "thorough": "same corpus"},
     "outside": "programs outside the shape corpus; the ANTLR front end is run concretely (not symbolically); account names are concrete per shape",
     "assumptions": COMMON_ASSUME,
     "units": vm_units("^C22:"),
@@ -90,5 +90,23 @@ CHECKS["C15"] = {
     "units": [
         unit("./internal", CORE_FILES, "^Harness_C15_Reverse_n[1-4]$", QT, flags={"labels": "^C15:"}),
         unit("./internal", CORE_FILES, "^Harness_C15_Reverse_n[56]$", T, flags={"labels": "^C15:"}),
+    ],
+}
+
+STORE_SWAPS = [
+    {"file": "internal/storage/ledger/volumes.go", "methods": [("*Store", "UpdateVolumes")]},
+    {"file": "internal/storage/ledger/transactions.go", "methods": [("*Store", "InsertTransaction")]},
+    {"file": "internal/storage/ledger/moves.go", "methods": [("*Store", "InsertMoves")]},
+]
+
+CHECKS["C03"] = {
+    "level": "other",
+    "explanation": "The real (*Store).CommitTransaction is executed symbolically (symbolic names in every equality pattern, unbounded amounts, symbolic pre-commit volumes) with its three SQL-issuing callees replaced by models via a method-swap overlay generated from the current tree. z3 decides: transaction PCV = pre + own deltas for exactly the touched pairs; moves are [source, destination] per posting in posting order and each move's PCV equals an independently computed forward fold (the code unwinds in reverse); preCommitVolumes (SubtractPostings) equals the pre-state and does not mutate its receiver.",
+    "bounds": {"quick": "P <= 2 postings, MOVES_HISTORY ON and OFF", "thorough": "P <= 3 postings"},
+    "outside": "the SQL of UpdateVolumes/InsertTransaction/InsertMoves (modelled: upsert returns pre+delta; RETURNING binds into the argument pointees) and immutability of stored PCV columns under later UPDATE statements",
+    "assumptions": COMMON_ASSUME + ["model of UpdateVolumes: returns pre-volumes + the row's delta per (account, asset); model of InsertMoves: records the moves"],
+    "units": [
+        unit("./internal/storage/ledger", ["storage/c03.go"], "^Harness_C03_Commit_p(1|2|2_off)$", QT, swaps=STORE_SWAPS, flags={"labels": "^C03:", "max-decisions": 3000}),
+        unit("./internal/storage/ledger", ["storage/c03.go"], "^Harness_C03_Commit_p3$", T, swaps=STORE_SWAPS, flags={"labels": "^C03:", "max-paths": 400000, "max-decisions": 6000}, timeout_s=7000),
     ],
 }
